@@ -16,7 +16,7 @@ def short(txt, n=110):
     return txt if len(txt) <= n else txt[: n - 3] + "..."
 
 
-from .astutil import utext, canon, canon_text  # noqa: E402,F401  (canonical spelling, see astutil)
+from .astutil import utext, canon, canon_text, gp, positive  # noqa: E402,F401  (canonical spelling, see astutil)
 
 
 def key(func, node=None, extra=None):
@@ -69,6 +69,11 @@ def resolve_local(func, expr):
         if len(d) == 1:
             return d[0].value
     return expr
+
+
+def guard_pairs(cfg, nid, blocked_edges=()):
+    """{(canonical positive atom text, polarity)} guarding a node"""
+    return {(utext(g.exprs[0]), pol) for g, pol in cfg.guards(nid, blocked_edges)}
 
 
 def call_name(call):
